@@ -8,6 +8,7 @@ import PyImpSpec.Tlm
 import PyImpSpec.Select
 import PyImpSpec.Progress
 import PyImpSpec.Ident
+import PyImpSpec.Tikz
 
 /-! Line-protocol driver: one request per line (`<model> <op> <args…>`), one canonical reply per line.
 Run with `lake env lean --run Driver/Main.lean`.  The harness sends the same inputs to the real
@@ -229,6 +230,39 @@ def identReply (toks : List String) : String :=
     s!"ok {f run} {f per} {names}"
   | _ => "bad-op"
 
+
+/-! ### CircuiTikZ layout -/
+
+def parseTikz : Nat → List String → Option (Tikz.T × List String)
+  | 0, _ => none
+  | fuel + 1, toks =>
+    match toks with
+    | "E" :: oid :: rest => some (.elem oid.toNat!, rest)
+    | "S" :: n :: rest => (parseTikzs fuel n.toNat! rest).map fun r => (.series r.1, r.2)
+    | "P" :: n :: rest => (parseTikzs fuel n.toNat! rest).map fun r => (.parallel r.1, r.2)
+    | _ => none
+where
+  parseTikzs (fuel : Nat) : Nat → List String → Option (List Tikz.T × List String)
+    | 0, toks => some ([], toks)
+    | k + 1, toks =>
+      match parseTikz fuel toks with
+      | none => none
+      | some (t, rest) => (parseTikzs fuel k rest).map fun r => (t :: r.1, r.2)
+
+def showCmd : Tikz.Cmd → String
+  | .component oid x y w => s!"c:{oid}:{x}:{y}:{w}"
+  | .short x y => s!"s:{x}:{y}"
+  | .vertical x t b => s!"v:{x}:{t}:{b}"
+  | .connector x y xe => s!"k:{x}:{y}:{xe}"
+
+def tikzReply (toks : List String) : String :=
+  match parseTikz (toks.length + 2) ("S" :: toks) with
+  | some (.series cs, []) =>
+    match Tikz.render cs with
+    | some (cmds, w) => s!"ok {w} " ++ " ".intercalate (cmds.map showCmd)
+    | none => "err ValueError"
+  | _ => "bad-op"
+
 def dsStep (st : DState) (args : List String) : DState × String :=
   match args with
   | ["reset"] => ({ st with ds := [] }, "ok")
@@ -341,6 +375,7 @@ def step (st : DState) (line : String) : DState × String :=
   | "prog" :: npct :: total :: recent :: toks => (st, progReply npct total recent toks)
   | "zprog" :: args => (st, zprogReply args)
   | ["fprog", m, w] => (st, s!"ok {Prog.fitTotal m.toNat! w.toNat!} {Prog.fitIncrements m.toNat! w.toNat!}")
+  | "tikz" :: toks => (st, tikzReply toks)
   | "ident" :: toks => (st, identReply toks)
   | ["sel", keys] => (st, selReply keys)
   | "tlm" :: which :: a :: b :: c :: d :: e :: binds => (st, tlmReply which [a, b, c, d, e] binds)
